@@ -30,6 +30,9 @@ type QueryOpts struct {
 	// several records share a final label set.
 	DropMsgOften bool
 
+	// Light draws short queries (0-2 stages, rarely a selector matcher).
+	Light bool
+
 	anchorFrags []string
 }
 
@@ -505,10 +508,16 @@ func GenLogQuery(t *rapid.T, s Schema, o QueryOpts) gen.LogQuery {
 	var q gen.LogQuery
 	anchorFrags = o.anchorFrags
 	nm := rapid.SampledFrom([]int{0, 0, 0, 0, 1, 1, 1, 1, 2, 3}).Draw(t, "nmatchers")
+	if o.Light {
+		nm = rapid.SampledFrom([]int{0, 0, 0, 1}).Draw(t, "nmatchers-light")
+	}
 	for i := 0; i < nm; i++ {
 		q.Sel = append(q.Sel, GenMatcher(t, s.Labels, "sel"))
 	}
 	ns := rapid.SampledFrom([]int{0, 1, 1, 2, 2, 3, 3, 4, 5, 6}).Draw(t, "nstages")
+	if o.Light {
+		ns = rapid.SampledFrom([]int{0, 0, 1, 1, 2}).Draw(t, "nstages-light")
+	}
 	if ns > o.MaxStages {
 		ns = o.MaxStages
 	}
